@@ -6,6 +6,9 @@ from typing import List, Set, Tuple
 
 from ..core import asthelp as H
 from ..core.progdb import AnalysisError, walk_no_nested, call_name, lit
+from ..core import terms as T
+from ..core.interp import Interp
+from ..core.values import Frame, Obj
 
 EXPLANATION = (
     "Effect / alias analysis over all of hta for the two symbol-table containers (sym_table, sym_index) including every alias handed out by the getters: only "
@@ -73,6 +76,88 @@ def _mutations(db) -> Tuple[List[tuple], int]:
             if isinstance(n, ast.Call) and isinstance(n.func, ast.Attribute) and n.func.attr in MUTATORS and denotes(n.func.value):
                 out.append(where + (f"{n.func.attr}() on {denotes(n.func.value)}", ast.unparse(n)[:100]))
     return out, alias_sites
+
+
+def _decode_in_place(db, chk, st):
+    """add_symbols_to_trace_df (ids of a column expanded to strings in place): every id of the table - 0 and the last one included - expands to ITS string,
+    anything outside (the -1 of 'no annotation') to ''.  Decided on the evaluated column: a truth table of the validity test and the look-up it guards."""
+    rule = "C11.R9-decode-in-place"
+    q = "TraceSymbolTable.add_symbols_to_trace_df"
+    fdef = st.functions.get(q)
+    if fdef is None:
+        chk.note("C11: TraceSymbolTable.add_symbols_to_trace_df is absent (nothing to decide)")
+        return
+    where = st.loc(fdef)
+    DF = ("param", "DF")
+    box = {}
+
+    def args(I):
+        box["f"] = Frame(DF)
+        ps = [p_ for p_ in H.param_names(fdef) if p_ != "self"]
+        return {"self": Obj("self", cls=(st, "TraceSymbolTable"), attrs={"sym_table": T.P("TABLE")}), ps[0]: box["f"], ps[1]: "name"}
+    try:
+        runs = [r for r in Interp(db).explore(f"{ST}:{q}", args) if r.raised is None]
+    except AnalysisError:
+        runs = []
+    chk.analysed_add("functions", f"{ST}:{q}")
+    if not runs:
+        chk.ob(rule, "add_symbols_to_trace_df evaluated", None, where, found="no normal path")
+        return
+    NAME = T.col(DF, "name")
+    for r in runs[:2]:
+        t = box["f"].col("name") if len(runs) == 1 else None
+        t = t if t is not None else box["f"].col("name")
+        t = t[2] if isinstance(t, tuple) and len(t) == 3 and t[0] == "mapf" else t
+        if not (isinstance(t, tuple) and len(t) == 4 and t[0] == "ite"):
+            chk.ob(rule, "the decoded column is a guarded look-up (valid id -> its string, otherwise '')", None if T.has_opaque(t) or t == NAME else None, where, found=T.show(t)[:160])
+            return
+        cond, a, b = t[1], t[2], t[3]
+        if a == T.C(""):
+            cond, a, b = T.not_(cond), b, a
+        try:
+            tt = {v: bool(T.evaluate(cond, lambda leaf, v=v: v if leaf == NAME else 3 if (isinstance(leaf, tuple) and leaf and leaf[0] in ("len", "nrows")) else (_ for _ in ()).throw(T.Unknown(leaf)))) for v in (-1, 0, 1, 2, 3, 4)}
+        except T.Unknown as u:
+            tt = None
+            chk.ob(rule, "the validity test reads the id and the table's length only", None, where, found=T.show(u.args[0])[:100])
+        if tt is not None:
+            chk.ob(rule, "an id is expanded iff it is an index of the table: 0 <= id < len(table) (id 0 and the last id included)", tt == {-1: False, 0: True, 1: True, 2: True, 3: False, 4: False}, where,
+                   found={str(k): v for k, v in tt.items()}, accepted="valid for 0, 1, 2 of a three-entry table; invalid for -1, 3, 4",
+                   why="which symbol has id 0 is arbitrary (hash seed, parse order): a test that excludes 0 blanks the name of whatever symbol got it")
+        lookups = [x for x in T.subterms(a) if x == NAME]
+        chk.ob(rule, "a valid id is looked up at ITS OWN position (no offset), everything else becomes ''", bool(lookups) and b == T.C("") and not any(isinstance(x, tuple) and x and x[0] == "lin" and NAME in [y[0] for y in x[1]] for x in T.subterms(a)), where,
+               found={"valid": T.show(a)[:100], "otherwise": T.show(b)[:40]}, accepted="table[id] / ''")
+        break
+    chk.floor(rule, 2)
+
+
+def _combine(db, chk, st):
+    """combine_symbol_tables extends the FIRST table: its ids are kept and the symbols the later tables add are appended in table order (no id depends on the
+    iteration order of a set of strings, which changes with the hash seed).  Decided by an abstract run on two small tables whose order is not alphabetical."""
+    rule = "C11.R10-combine-extends"
+    q = "TraceSymbolTable.combine_symbol_tables"
+    fdef = st.functions.get(q)
+    if fdef is None:
+        chk.note("C11: TraceSymbolTable.combine_symbol_tables is absent (nothing to decide)")
+        return
+    where = st.loc(fdef)
+    mk = lambda name, syms: Obj(name, cls=(st, "TraceSymbolTable"), attrs={"sym_table": list(syms), "sym_index": {s_: i for i, s_ in enumerate(syms)}})
+    ps = H.param_names(fdef)
+    I = Interp(db)
+    try:
+        runs = [r for r in I.explore(f"{ST}:{q}", lambda I: {ps[-1]: [mk("T1", ["zeta", "alpha"]), mk("T2", ["alpha", "omega", "beta"])]}) if r.raised is None]
+    except AnalysisError:
+        runs = []
+    chk.analysed_add("functions", f"{ST}:{q}")
+    res = runs[0].ret if len(runs) == 1 and not runs[0].path else None
+    tab = res.attrs.get("sym_table") if isinstance(res, Obj) else None
+    idx = res.attrs.get("sym_index") if isinstance(res, Obj) else None
+    concrete = isinstance(tab, list) and all(isinstance(x, str) for x in tab) and isinstance(idx, dict) and all(isinstance(k, str) and isinstance(v, int) for k, v in idx.items())
+    want = ["zeta", "alpha", "omega", "beta"]
+    unordered = [e for e in runs[0].events if e["kind"] == "unordered-walk"] if len(runs) == 1 else []
+    chk.ob(rule, "the combined table keeps the ids of the first table and appends the new symbols of the later tables in their order",
+           (tab == want and idx == {s_: i for i, s_ in enumerate(want)} and not unordered) if concrete else None, where,
+           found={"sym_table": tab, "walks in set order": [e.get("line") for e in unordered]} if concrete else f"{len(runs)} path(s), result not concrete", accepted=want,
+           why="ids handed out in the iteration order of a set of strings change with the hash seed and re-number the first table: frames encoded with it decode to other strings")
 
 
 def check_reencoding(db, chk, RULE):
@@ -313,6 +398,8 @@ def run(db, chk) -> None:
     chk.ob("C11.R3-ordered-collection", "get_ranks() returns the ranks in sorted order", any(H.match("return sorted($$x)", st_) is not None for st_ in gr.body), tm.loc(gr),
            found=[ast.unparse(st_)[:80] for st_ in gr.body if isinstance(st_, ast.Return)], accepted="sorted(self.traces.keys())")
     _derived_views(db, chk)
+    _decode_in_place(db, chk, st)
+    _combine(db, chk, st)
     from ..specs.discipline import check_stateless
     check_stateless(db, chk, "C11.R7-no-module-state", [ST])          # decoding / encoding helpers keep nothing between calls (tables of different traces never mix)
     chk.floor("C11.R7-no-module-state", 10)
